@@ -159,6 +159,11 @@ PROPS["C15"]["quick"].append({"module": "MC_PDF", "cfg": "MC_C13a_quick.cfg", "n
 PROPS["C03"]["quick"].append({"module": "MC_C03", "cfg": "MC_C03w_quick.cfg", "nprimes": 6, "require_acts": ["Integrate", "IntegrateLogFactor", "Normalize"]})
 # two approximate conditionals of one class alive at once, used alternately (state leaking between instances)
 PROPS["C16"]["quick"].append({"module": "MC_C16B", "cfg": "MC_C16B_quick.cfg", "nprimes": 6, "require_acts": ["ApproxTransform", "ApproxCondOnX"]})
+# the same matrices in very small units (entries x 2e-9; offsets >= 20): branches on ABSOLUTE thresholds (allclose defaults, fixed jitter)
+for _pid, _m, _c in (("C05", "MC_PDF", "MC_C05_micro.cfg"), ("C06", "MC_PDF", "MC_C06_micro.cfg"), ("C13", "MC_PDF", "MC_C13a_micro.cfg"),
+                     ("C13", "MC_COND", "MC_C13b_micro.cfg"), ("C07", "MC_COND", "MC_C07_micro.cfg"), ("C08", "MC_COND", "MC_C08_micro.cfg"),
+                     ("C09", "MC_COND", "MC_C09_micro.cfg"), ("C10", "MC_COND", "MC_C10_micro.cfg")):
+    PROPS[_pid]["quick"].append({"module": _m, "cfg": _c, "nprimes": 22})
 PROPS["C12"]["quick"].append({"kind": "b2", "traces": 80, "length": 6, "family": "MC", "nprimes": 10})
 PROPS["C02"]["quick"].append({"kind": "b2", "traces": 60, "length": 6, "family": "MC", "nprimes": 10})
 _THOROUGH_SAMPLING = {"MC_C04M_thorough.cfg": 40, "MC_C04C_thorough.cfg": 24, "MC_C12M_thorough.cfg": 60, "MC_C12C_thorough.cfg": 12}
